@@ -550,6 +550,7 @@ def eval_case(case):
         outcomes.append("min-exc")
     # ---- all variants
     ok, paths = call("variants-total", S.get_paths, part, no_repeats=False, all_repeats=False, ignore_leap_info=True)
+    nvar = len(paths) if ok else 0
     if ok:
         res.traces += len(paths)
         outcomes.append("var:%d" % len(paths))
@@ -585,7 +586,9 @@ def eval_case(case):
                     exp.add(tuple(seq))
                 if len(paths) != 2 ** r or set(seqs) != exp:
                     res.fail("variants-2^r", expected=sorted(exp), observed=seqs, where="get_paths[all]", detail=ctx)
-        for uid in (True, False):
+        # every variant is materialised up to MAX_MATERIALISED paths (all of them in the spaces up to 5 measures);
+        # beyond that (many-segment spaces) the paths are checked, the copies are those of maximal / minimal only
+        for uid in (True, False) if len(paths) <= MAX_MATERIALISED else ():
             ok2, ups = call("variants-total", lambda: list(S.iter_unfolded_parts(part, update_ids=uid)))
             if ok2:
                 if len(ups) != len(paths):
@@ -595,7 +598,7 @@ def eval_case(case):
                         check_copy(res, "", up, orig_notes, path_visits(p), uid, ctx + " iter_unfolded_parts(update_ids=%r)" % uid)
                 if not arg_unchanged("iter_unfolded_parts"):
                     return _done(res, outcomes, struct)
-        ok3, svs = call("variants-total", S.make_score_variants, part)
+        ok3, svs = call("variants-total", S.make_score_variants, part) if len(paths) <= MAX_MATERIALISED else (False, None)
         if ok3 and [sv.segment_times for sv in svs] != [path_visits(p) for p in paths]:
             res.fail("second-call-equal", expected=[path_visits(p) for p in paths][:2], observed=[sv.segment_times for sv in svs][:2], where="make_score_variants", detail=ctx)
     else:
@@ -617,7 +620,7 @@ def eval_case(case):
     if ok and F.fp_score(sc) != fps:
         res.fail("argument-unchanged", expected="score argument unchanged", observed=F.diff(fps, F.fp_score(sc))[:2], where="unfold_part_minimal[score]", detail=ctx)
     # ---- alignment-driven unfolding picks one of the variants
-    if case.get("content", ["plain"])[0] == "plain":
+    if case.get("content", ["plain"])[0] == "plain" and nvar <= MAX_MATERIALISED:  # (it materialises every variant)
         p2 = fresh()
         okp, paths = call("variants-total", S.get_paths, p2, no_repeats=False, all_repeats=True, ignore_leap_info=True)
         if okp:
@@ -631,6 +634,9 @@ def eval_case(case):
                 if not set(ids) <= set(got):
                     res.fail("alignment-variant", expected="a variant containing every aligned id", observed=[ids, got], where="unfold_part_alignment", detail=ctx)
     return _done(res, outcomes, struct)
+
+
+MAX_MATERIALISED = 32
 
 
 def _done(res, outcomes, struct):
@@ -688,6 +694,31 @@ def structures(M):
         yield "volta+dc", [["repeat", a, c], ["ending", b, c, "1"], ["ending", c, d, "2"], ["dacapo", M]]
 
 
+def repeat_chains(M, kmin=3):
+    """every set of at least `kmin` pairwise disjoint simple repeats over M measures (many segments: the
+    segment ids run past 'E', where they sort after "END" as strings)"""
+    out = []
+
+    def rec(start, cur):
+        if len(cur) >= kmin:
+            out.append([["repeat", a, b] for a, b in cur])
+        for a in range(start, M):
+            for b in range(a + 1, M + 1):
+                cur.append((a, b))
+                rec(b, cur)
+                cur.pop()
+
+    rec(0, [])
+    return out
+
+
+def shifted(st, k):
+    """the structure `st` moved k measures to the right, behind k measures that are each repeated on their own
+    (k segments before the first segment of `st`)"""
+    pre = [["repeat", i, i + 1] for i in range(k)]
+    return pre + [[x + k if isinstance(x, int) else x for x in s] for s in st]
+
+
 def contents(M):
     yield ["plain"]
     yield ["two"]
@@ -711,6 +742,15 @@ def spaces(tier, seed):
     if tier == "quick":
         nest = [dict(M=6, struct=st, content=["plain"], cls=cls) for cls, st in structures(6) if cls.endswith("-in-repeat")]
         sp.append(Space("volta-in-repeat-M6", nest, True, "M=6: every 1|2 and 1,2|3 volta group strictly inside an outer repeat"))
+    chainMs = [3, 4, 5, 6, 7] if tier == "quick" else [3, 4, 5, 6, 7, 8]
+    chains = [dict(M=M, struct=st, content=["plain"], cls="repeat-chain") for M in chainMs for st in repeat_chains(M)]
+    sp.append(Space("repeat-chains", chains, True, "M=%s: every set of 3 or more pairwise disjoint simple repeats (up to M segments)" % chainMs))
+    K = 5
+    lateMs = [1, 2, 3] if tier == "quick" else [1, 2, 3, 4]
+    late = [dict(M=M + K, struct=shifted(st, K), content=["plain"], cls=cls + "-late") for M in lateMs for cls, st in structures(M)]
+    sp.append(Space("late-segments", late, True,
+                    "every structure of every class over M=%s measures, placed behind %d measures that are each repeated on "
+                    "their own (all its segments have ids from 'F' on)" % (lateMs, K)))
     cv = []
     for M in ([2, 3] if tier == "quick" else [2, 3, 4, 5]):
         for cls, st in structures(M):
